@@ -38,29 +38,30 @@ Proof. intros. now rewrite !caller_snoc. Qed.
 Lemma logs_of_event_delegators : forall d e l,
   In l (logs_of_event d e) ->
   match e, l with
-  | EvDelegate v del a, LDelegate del' v' a' => del' = del /\ v' = v /\ a' = a /\ 0 < a
-  | EvUnbond v del a, LUndelegate del' v' a' => del' = del /\ v' = v /\ a' = a /\ 0 < a
-  | EvWithdrawRewards v del a, LWithdrawReward del' v' a' => del' = del /\ v' = v /\ a' = a /\ 0 < a
-  | EvRedelegate s t a, LUndelegate del' v' a' => del' = d /\ v' = s /\ a' = a /\ 0 < a
-  | EvRedelegate s t a, LDelegate del' v' a' => del' = d /\ v' = t /\ a' = a /\ 0 < a
+  | EvDelegate v del c, LDelegate del' v' a' => del' = del /\ v' = v /\ a' = amount_of BOND c /\ 0 < a'
+  | EvUnbond v del c, LUndelegate del' v' a' => del' = del /\ v' = v /\ a' = amount_of BOND c /\ 0 < a'
+  | EvWithdrawRewards v del c, LWithdrawReward del' v' a' => del' = del /\ v' = v /\ a' = amount_of BOND c /\ 0 < a'
+  | EvRedelegate s t c, LUndelegate del' v' a' => del' = d /\ v' = s /\ a' = amount_of BOND c /\ 0 < a'
+  | EvRedelegate s t c, LDelegate del' v' a' => del' = d /\ v' = t /\ a' = amount_of BOND c /\ 0 < a'
   | _, _ => False
   end.
 Proof.
   intros d e l H. destruct e; cbn [logs_of_event] in H; try contradiction;
-    destruct (0 <? amt) eqn:Ha; try contradiction; apply Z.ltb_lt in Ha; cbn [In] in H;
+    destruct (0 <? amount_of BOND amt) eqn:Ha; try contradiction; apply Z.ltb_lt in Ha; cbn [In] in H;
     repeat (destruct H as [H|H]; [subst l; auto|]); contradiction.
 Qed.
 
-(* number of logs = one per delegate / unbond / withdraw event with a positive amount, two per such redelegate event *)
+(* number of logs = one per delegate / unbond / withdraw event with a positive bond-denom amount, two per such
+   redelegate event *)
 Definition log_count (e : nevent) : nat :=
   match e with
-  | EvDelegate _ _ a | EvUnbond _ _ a | EvWithdrawRewards _ _ a => if 0 <? a then 1 else 0
-  | EvRedelegate _ _ a => if 0 <? a then 2 else 0
+  | EvDelegate _ _ c | EvUnbond _ _ c | EvWithdrawRewards _ _ c => if 0 <? amount_of BOND c then 1 else 0
+  | EvRedelegate _ _ c => if 0 <? amount_of BOND c then 2 else 0
   | EvOther => 0
   end.
 
 Lemma logs_of_event_length : forall d e, length (logs_of_event d e) = log_count e.
-Proof. intros d e. destruct e; cbn; try reflexivity; destruct (0 <? amt); reflexivity. Qed.
+Proof. intros d e. destruct e; cbn; try reflexivity; destruct (0 <? amount_of BOND amt); reflexivity. Qed.
 
 Lemma flat_map_length_sum : forall (A B : Type) (f : A -> list B) (l : list A),
   length (flat_map f l) = fold_right (fun a n => (length (f a) + n)%nat) 0%nat l.
@@ -69,13 +70,17 @@ Proof. induction l as [|a r IH]; cbn; [reflexivity|]. now rewrite app_length, IH
 Section Cpc.
   Variable nstate : Type.
   Variable native_step : nstate -> nmsg -> option (nstate * list nevent).
-  Variable q_rewards : nstate -> Z -> list (Z * Z) * bool.
+  Variable q_rewards : nstate -> Z -> list (Z * coins) * bool.
   Variable q_balance : nstate -> Z -> Z.
   Variable q_delegated_bonded : nstate -> Z -> list vinfo.
   Variable q_bonded : nstate -> list vinfo.
   Variable chain_id : Z.
   Variable typed_hash : Z -> typed -> Z.
   Variable recover : Z -> Z -> option Z.
+  Variable q_delegation_tokens : nstate -> Z -> Z -> qres.
+  Variable q_bonded_total : nstate -> Z -> qres.
+  Variable q_reward : nstate -> Z -> Z -> qresc.
+  Variable q_rewards_total : nstate -> Z -> qresc.
 
   Notation run_native := (run_native nstate native_step).
   Notation cpc_step := (cpc_step nstate native_step q_rewards q_balance q_delegated_bonded q_bonded chain_id typed_hash recover).
@@ -106,7 +111,8 @@ Section Cpc.
   Qed.
 
   Lemma withdraw_all_msgs_shape : forall s d m, In m (withdraw_all_msgs s d) ->
-    exists v a, m = MsgWithdrawDelegatorReward d v /\ In (v, a) (fst (q_rewards s d)) /\ MIN_WITHDRAW <= a /\ snd (q_rewards s d) = false.
+    exists v c, m = MsgWithdrawDelegatorReward d v /\ In (v, c) (fst (q_rewards s d)) /\ MIN_WITHDRAW <= amount_of BOND c /\
+                snd (q_rewards s d) = false.
   Proof.
     intros s d m. unfold StakingCpc.withdraw_all_msgs. destruct (q_rewards s d) as [rs tz]. cbn [fst snd].
     destruct rs as [|r0 rs]; [intros []|]. destruct tz; [intros []|].
@@ -370,23 +376,105 @@ Section Cpc.
   Qed.
 
   (* ---------------------------------------------------------------- twin histories *)
-  Notation step_A := (step_A nstate native_step q_rewards q_balance q_delegated_bonded q_bonded chain_id typed_hash recover).
-  Notation step_B := (step_B nstate native_step q_rewards q_balance q_delegated_bonded q_bonded chain_id typed_hash recover).
-  Notation run_A := (run_A nstate native_step q_rewards q_balance q_delegated_bonded q_bonded chain_id typed_hash recover).
-  Notation run_B := (run_B nstate native_step q_rewards q_balance q_delegated_bonded q_bonded chain_id typed_hash recover).
-  Notation logs_A := (logs_A nstate native_step q_rewards q_balance q_delegated_bonded q_bonded chain_id typed_hash recover).
-  Notation logs_B := (logs_B nstate native_step q_rewards q_balance q_delegated_bonded q_bonded chain_id typed_hash recover).
+  Notation step_A := (step_A nstate native_step q_rewards q_balance q_delegated_bonded q_bonded chain_id typed_hash recover
+                             q_delegation_tokens q_bonded_total q_reward q_rewards_total).
+  Notation step_B := (step_B nstate native_step q_rewards q_balance q_delegated_bonded q_bonded chain_id typed_hash recover
+                             q_delegation_tokens q_bonded_total q_reward q_rewards_total).
+  Notation run_A := (run_A nstate native_step q_rewards q_balance q_delegated_bonded q_bonded chain_id typed_hash recover
+                           q_delegation_tokens q_bonded_total q_reward q_rewards_total).
+  Notation run_B := (run_B nstate native_step q_rewards q_balance q_delegated_bonded q_bonded chain_id typed_hash recover
+                           q_delegation_tokens q_bonded_total q_reward q_rewards_total).
+  Notation logs_A := (logs_A nstate native_step q_rewards q_balance q_delegated_bonded q_bonded chain_id typed_hash recover
+                             q_delegation_tokens q_bonded_total q_reward q_rewards_total).
+  Notation logs_B := (logs_B nstate native_step q_rewards q_balance q_delegated_bonded q_bonded chain_id typed_hash recover
+                             q_delegation_tokens q_bonded_total q_reward q_rewards_total).
   Notation trace := (trace nstate).
-  Notation issued_A := (issued_A nstate native_step q_rewards q_balance q_delegated_bonded q_bonded chain_id typed_hash recover).
+  Notation issued_A := (issued_A nstate native_step q_rewards q_balance q_delegated_bonded q_bonded chain_id typed_hash recover
+                                 q_delegation_tokens q_bonded_total q_reward q_rewards_total).
+  Notation view_step := (view_step nstate q_balance q_delegation_tokens q_bonded_total q_reward q_rewards_total).
+  Notation native_view := (native_view nstate q_balance q_delegation_tokens q_bonded_total q_reward q_rewards_total).
+  Notation item_A := (item_A nstate native_step q_rewards q_balance q_delegated_bonded q_bonded chain_id typed_hash recover
+                             q_delegation_tokens q_bonded_total q_reward q_rewards_total).
+  Notation item_B := (item_B nstate native_step q_rewards q_balance q_delegated_bonded q_bonded chain_id typed_hash recover
+                             q_delegation_tokens q_bonded_total q_reward q_rewards_total).
+  Notation tx_A := (tx_A nstate native_step q_rewards q_balance q_delegated_bonded q_bonded chain_id typed_hash recover
+                         q_delegation_tokens q_bonded_total q_reward q_rewards_total).
+  Notation tx_B := (tx_B nstate native_step q_rewards q_balance q_delegated_bonded q_bonded chain_id typed_hash recover
+                         q_delegation_tokens q_bonded_total q_reward q_rewards_total).
+  Notation tx_state_A := (tx_state_A nstate native_step q_rewards q_balance q_delegated_bonded q_bonded chain_id typed_hash recover
+                                     q_delegation_tokens q_bonded_total q_reward q_rewards_total).
+  Notation tx_obs_A := (tx_obs_A nstate native_step q_rewards q_balance q_delegated_bonded q_bonded chain_id typed_hash recover
+                                 q_delegation_tokens q_bonded_total q_reward q_rewards_total).
+  Notation tx_msgs_A := (tx_msgs_A nstate native_step q_rewards q_balance q_delegated_bonded q_bonded chain_id typed_hash recover
+                                   q_delegation_tokens q_bonded_total q_reward q_rewards_total).
+
+  (* ---------------------------------------------------------------- views, transactions *)
+  Lemma view_step_is_native_view : forall s w, view_step s w = native_view s w.
+  Proof.
+    intros s w. destruct w as [a v|a|a v|a|a]; cbn [StakingCpc.view_step StakingCpc.native_view].
+    - destruct (q_delegation_tokens s a v); reflexivity.
+    - destruct (q_bonded_total s a); reflexivity.
+    - destruct (q_reward s a v); reflexivity.
+    - destruct (q_rewards_total s a); reflexivity.
+    - destruct (q_rewards_total s a); reflexivity.
+  Qed.
+
+  Lemma tx_A_app : forall a b s caller,
+    tx_A s caller (a ++ b) =
+    let '(s1, o1, m1) := tx_A s caller a in let '(s2, o2, m2) := tx_A s1 caller b in (s2, o1 ++ o2, m1 ++ m2).
+  Proof.
+    induction a as [|i r IH]; intros b s caller; cbn [app StakingCpc.tx_A].
+    - destruct (tx_A s caller b) as [[s2 o2] m2]. reflexivity.
+    - destruct (item_A s caller i) as [[s1 o1] m1]. rewrite IH.
+      destruct (tx_A s1 caller r) as [[s2 o2] m2]. destruct (tx_A s2 caller b) as [[s3 o3] m3].
+      cbn [app]. now rewrite app_assoc.
+  Qed.
+
+  Lemma tx_B_app : forall a b s caller,
+    tx_B s caller (a ++ b) =
+    let '(s1, o1) := tx_B s caller a in let '(s2, o2) := tx_B s1 caller b in (s2, o1 ++ o2).
+  Proof.
+    induction a as [|i r IH]; intros b s caller; cbn [app StakingCpc.tx_B].
+    - destruct (tx_B s caller b) as [s2 o2]. reflexivity.
+    - destruct (item_B s caller i) as [s1 o1]. rewrite IH.
+      destruct (tx_B s1 caller r) as [s2 o2]. destruct (tx_B s2 caller b) as [s3 o3]. reflexivity.
+  Qed.
+
+  Lemma tx_A_obs_length : forall items s caller, length (snd (fst (tx_A s caller items))) = length items.
+  Proof.
+    induction items as [|i r IH]; intros s caller; cbn [StakingCpc.tx_A]; [reflexivity|].
+    destruct (item_A s caller i) as [[s1 o1] m1]. specialize (IH s1 caller).
+    destruct (tx_A s1 caller r) as [[s2 o2] m2]. cbn [fst snd length] in *. now rewrite IH.
+  Qed.
+
+  (* every message issued in the course of a transaction is the caller's own *)
+  Lemma tx_msgs_own : forall items s caller, Forall (fun m => msg_delegator m = caller) (tx_msgs_A s caller items).
+  Proof.
+    unfold StakingCpc.tx_msgs_A.
+    induction items as [|i r IH]; intros s caller; cbn [StakingCpc.tx_A]; [constructor|].
+    destruct (item_A s caller i) as [[s1 o1] m1] eqn:Hi. specialize (IH s1 caller).
+    destruct (tx_A s1 caller r) as [[s2 o2] m2]. cbn [snd] in *. apply Forall_app. split; [|exact IH].
+    destruct i as [c|w]; cbn [StakingCpc.item_A] in Hi.
+    - destruct (cpc_step s caller c) as [[[[s' logs] ret] ms]|] eqn:Hc; inversion Hi; subst; [|constructor].
+      eapply acts_for_caller; eauto.
+    - inversion Hi. constructor.
+  Qed.
+
+  (* a view call changes nothing, wherever in the transaction it stands *)
+  Lemma view_item_pure : forall s caller w, item_A s caller (IView w) = (s, TView (view_step s w), []).
+  Proof. reflexivity. Qed.
 
   Lemma issued_A_own : forall ops s, Forall (fun p => msg_delegator (snd p) = fst p) (issued_A s ops).
   Proof.
     induction ops as [|o r IH]; intros s; cbn [StakingCpc.issued_A]; [constructor|].
     apply Forall_app. split; [|apply IH].
-    destruct o as [sender path c|m|f]; try constructor.
-    destruct (cpc_step s (precompile_caller sender path) c) as [[[[s' logs] ret] ms]|] eqn:Hc; [|constructor].
-    apply acts_for_caller in Hc. apply Forall_forall. intros p Hp. apply in_map_iff in Hp as [m [<- Hm]].
-    rewrite Forall_forall in Hc. cbn [fst snd]. now apply Hc.
+    destruct o as [sender path c|sender path items|m|f]; try constructor.
+    - destruct (cpc_step s (precompile_caller sender path) c) as [[[[s' logs] ret] ms]|] eqn:Hc; [|constructor].
+      apply acts_for_caller in Hc. apply Forall_forall. intros p Hp. apply in_map_iff in Hp as [m [<- Hm]].
+      rewrite Forall_forall in Hc. cbn [fst snd]. now apply Hc.
+    - pose proof (tx_msgs_own items s (precompile_caller sender path)) as Hc.
+      apply Forall_forall. intros p Hp. apply in_map_iff in Hp as [m [<- Hm]].
+      rewrite Forall_forall in Hc. cbn [fst snd]. now apply Hc.
   Qed.
 
   Section Emits.
@@ -425,28 +513,64 @@ Section Cpc.
       destruct (run_native_silent _ _ _ _ H1 F1) as [-> _]. destruct (run_native_silent _ _ _ _ H2 F2) as [-> _]. reflexivity.
     Qed.
 
-    Lemma step_A_eq_step_B : forall s o, step_A s o = step_B s o.
-    Proof.
-      intros s o. destruct o as [sender path c|m|f]; cbn [StakingCpc.step_A StakingCpc.step_B]; try reflexivity.
-      rewrite cpc_step_is_native_prog.
-      destruct (native_prog s (precompile_caller sender path) c) as [[[s' evs] ms]|] eqn:Hp; [|reflexivity].
-      unfold of_prog, emit. destruct (existsb counted evs) eqn:He; [reflexivity|].
-      symmetry. eapply native_prog_silent; eauto.
-    Qed.
-
     Lemma silent_events_no_logs : forall d evs, existsb counted evs = false -> flat_map (logs_of_event d) evs = [].
     Proof.
       intros d. induction evs as [|e r IH]; intros H; [reflexivity|]. cbn [existsb] in H.
       apply orb_false_iff in H as [He Hr]. cbn [flat_map]. rewrite (IH Hr). destruct e; try discriminate. reflexivity.
     Qed.
 
+    (* one call of a transaction: same state and same logs on both chains; one view: the native query at that point *)
+    Lemma item_A_eq_item_B : forall s caller i, fst (item_A s caller i) = item_B s caller i.
+    Proof.
+      intros s caller i. destruct i as [c|w]; cbn [StakingCpc.item_A StakingCpc.item_B].
+      - rewrite cpc_step_is_native_prog.
+        destruct (native_prog s caller c) as [[[s' evs] ms]|] eqn:Hp; [|reflexivity].
+        unfold of_prog, emit. destruct (existsb counted evs) eqn:He; [reflexivity|].
+        cbn [fst]. rewrite (native_prog_silent _ _ _ _ _ _ Hp He). now rewrite silent_events_no_logs.
+      - cbn [fst]. now rewrite view_step_is_native_view.
+    Qed.
+
+    Lemma tx_A_eq_tx_B : forall items s caller, fst (tx_A s caller items) = tx_B s caller items.
+    Proof.
+      induction items as [|i r IH]; intros s caller; cbn [StakingCpc.tx_A StakingCpc.tx_B]; [reflexivity|].
+      pose proof (item_A_eq_item_B s caller i) as Hi.
+      destruct (item_A s caller i) as [[s1 o1] m1]. cbn [fst] in Hi. rewrite <- Hi.
+      specialize (IH s1 caller). destruct (tx_A s1 caller r) as [[s2 o2] m2]. cbn [fst] in *. now rewrite <- IH.
+    Qed.
+
+    (* the view at any position of a transaction reports the native query evaluated on the state chain B is in after the
+       native submissions of the calls before it *)
+    Theorem tx_view_at_point : forall pre w post s caller,
+      nth_error (tx_obs_A s caller (pre ++ IView w :: post)) (length pre) =
+      Some (TView (native_view (fst (tx_B s caller pre)) w)).
+    Proof.
+      intros pre w post s caller. unfold StakingCpc.tx_obs_A. rewrite tx_A_app.
+      pose proof (tx_A_eq_tx_B pre s caller) as Hpre. pose proof (tx_A_obs_length pre s caller) as Hlen.
+      destruct (tx_A s caller pre) as [[s1 o1] m1]. cbn [fst snd] in *. rewrite <- Hpre. cbn [fst].
+      cbn [StakingCpc.tx_A StakingCpc.item_A].
+      destruct (tx_A s1 caller post) as [[s2 o2] m2]. cbn [fst snd].
+      rewrite nth_error_app2 by lia. rewrite Hlen, Nat.sub_diag. cbn [nth_error].
+      now rewrite view_step_is_native_view.
+    Qed.
+
+    Lemma step_A_eq_step_B : forall s o, step_A s o = step_B s o.
+    Proof.
+      intros s o. destruct o as [sender path c|sender path items|m|f]; cbn [StakingCpc.step_A StakingCpc.step_B]; try reflexivity.
+      - rewrite cpc_step_is_native_prog.
+        destruct (native_prog s (precompile_caller sender path) c) as [[[s' evs] ms]|] eqn:Hp; [|reflexivity].
+        unfold of_prog, emit. destruct (existsb counted evs) eqn:He; [reflexivity|].
+        symmetry. eapply native_prog_silent; eauto.
+      - unfold StakingCpc.tx_state_A. now rewrite <- tx_A_eq_tx_B.
+    Qed.
+
     Lemma logs_A_eq_logs_B : forall s o, logs_A s o = logs_B s o.
     Proof.
-      intros s o. destruct o as [sender path c|m|f]; cbn [StakingCpc.logs_A StakingCpc.logs_B]; try reflexivity.
-      rewrite cpc_step_is_native_prog.
-      destruct (native_prog s (precompile_caller sender path) c) as [[[s' evs] ms]|]; [|reflexivity].
-      unfold of_prog, emit. destruct (existsb counted evs) eqn:He; [reflexivity|].
-      symmetry. now apply silent_events_no_logs.
+      intros s o. destruct o as [sender path c|sender path items|m|f]; cbn [StakingCpc.logs_A StakingCpc.logs_B]; try reflexivity.
+      - rewrite cpc_step_is_native_prog.
+        destruct (native_prog s (precompile_caller sender path) c) as [[[s' evs] ms]|]; [|reflexivity].
+        unfold of_prog, emit. destruct (existsb counted evs) eqn:He; [reflexivity|].
+        symmetry. now apply silent_events_no_logs.
+      - unfold StakingCpc.tx_obs_A. now rewrite <- tx_A_eq_tx_B.
     Qed.
 
     Theorem twin_logs_agree : forall ops s, trace logs_A step_A s ops = trace logs_B step_B s ops.
@@ -497,8 +621,122 @@ Section Cpc.
       destruct (cpc_step s (precompile_caller sender path) c) as [[[[s' logs] ret] ms]|] eqn:Hc; [|reflexivity].
       eapply third_parties_untouched; eauto.
     Qed.
+    (* ... nor does a whole transaction of precompile calls and views by someone else *)
+    Theorem tx_third_parties_untouched : forall items s caller x,
+      x <> caller -> acct (tx_state_A s caller items) x = acct s x.
+    Proof.
+      unfold StakingCpc.tx_state_A.
+      induction items as [|i r IH]; intros s caller x Hx; cbn [StakingCpc.tx_A]; [reflexivity|].
+      destruct (item_A s caller i) as [[s1 o1] m1] eqn:Hi. specialize (IH s1 caller x Hx).
+      destruct (tx_A s1 caller r) as [[s2 o2] m2]. cbn [fst] in *. rewrite IH.
+      destruct i as [c|w]; cbn [StakingCpc.item_A] in Hi.
+      - destruct (cpc_step s caller c) as [[[[s' logs] ret] ms]|] eqn:Hc; inversion Hi; subst; [|reflexivity].
+        eapply third_parties_untouched; eauto.
+      - inversion Hi. reflexivity.
+    Qed.
   End Local.
 End Cpc.
+
+(* ---------------------------------------------------------------- other denominations never matter *)
+(* Two events that differ at most in what they carry beside the bond denom's amount *)
+Definition ev_same_bond (e e' : nevent) : Prop :=
+  match e, e' with
+  | EvDelegate v d c, EvDelegate v' d' c' | EvUnbond v d c, EvUnbond v' d' c'
+  | EvRedelegate v d c, EvRedelegate v' d' c' | EvWithdrawRewards v d c, EvWithdrawRewards v' d' c' =>
+      v = v' /\ d = d' /\ amount_of BOND c = amount_of BOND c'
+  | EvOther, EvOther => True
+  | _, _ => False
+  end.
+
+Lemma ev_same_bond_logs : forall d e e', ev_same_bond e e' -> logs_of_event d e = logs_of_event d e' /\ counted e = counted e'.
+Proof.
+  intros d e e' H. destruct e, e'; cbn [ev_same_bond] in H; try contradiction; try (split; reflexivity);
+    destruct H as [-> [-> Ha]]; cbn [logs_of_event counted]; rewrite Ha; split; reflexivity.
+Qed.
+
+Lemma emit_same_bond : forall d evs evs', Forall2 ev_same_bond evs evs' -> emit d evs = emit d evs'.
+Proof.
+  intros d evs evs' H. unfold emit.
+  assert (E : existsb counted evs = existsb counted evs' /\ flat_map (logs_of_event d) evs = flat_map (logs_of_event d) evs').
+  { induction H as [|e e' r r' He Hr [IH1 IH2]]; [split; reflexivity|].
+    destruct (ev_same_bond_logs d e e' He) as [Hl Hc]. cbn [existsb flat_map]. now rewrite Hl, Hc, IH1, IH2. }
+  destruct E as [-> ->]. reflexivity.
+Qed.
+
+Lemma ev_same_bond_refl : forall e, ev_same_bond e e.
+Proof. destruct e; cbn; auto. Qed.
+
+Section TwoNatives.
+  (* two native sides which do the same to the state and announce it with events that agree on everything the
+     precompile reads of them but may carry different amounts of OTHER denominations (say: the same chain without and with
+     a rewards pool that somebody topped up with another coin) *)
+  Variable nstate : Type.
+  Variable native_step native_step' : nstate -> nmsg -> option (nstate * list nevent).
+  Variable q_rewards : nstate -> Z -> list (Z * coins) * bool.
+  Variable q_balance : nstate -> Z -> Z.
+  Variable q_delegated_bonded : nstate -> Z -> list vinfo.
+  Variable q_bonded : nstate -> list vinfo.
+  Variable chain_id : Z.
+  Variable typed_hash : Z -> typed -> Z.
+  Variable recover : Z -> Z -> option Z.
+
+  Definition same_upto_other_denoms : Prop := forall s m,
+    match native_step s m, native_step' s m with
+    | Some (s1, e1), Some (s2, e2) => s1 = s2 /\ Forall2 ev_same_bond e1 e2
+    | None, None => True
+    | _, _ => False
+    end.
+  Hypothesis Hsame : same_upto_other_denoms.
+
+  Lemma run_native_same : forall ms s,
+    match run_native nstate native_step s ms, run_native nstate native_step' s ms with
+    | Some (s1, e1), Some (s2, e2) => s1 = s2 /\ Forall2 ev_same_bond e1 e2
+    | None, None => True
+    | _, _ => False
+    end.
+  Proof.
+    induction ms as [|m r IH]; intros s; cbn [run_native]; [split; [reflexivity|constructor]|].
+    pose proof (Hsame s m) as H.
+    destruct (native_step s m) as [[s1 e1]|], (native_step' s m) as [[s1' e1']|]; try contradiction; [|exact I].
+    destruct H as [<- He]. specialize (IH s1).
+    destruct (run_native nstate native_step s1 r) as [[s2 e2]|], (run_native nstate native_step' s1 r) as [[s2' e2']|];
+      try contradiction; [|exact I].
+    destruct IH as [<- He2]. split; [reflexivity|]. now apply Forall2_app.
+  Qed.
+
+  Lemma native_prog_same : forall s d c,
+    match native_prog nstate native_step q_rewards q_balance q_delegated_bonded q_bonded chain_id typed_hash recover s d c,
+          native_prog nstate native_step' q_rewards q_balance q_delegated_bonded q_bonded chain_id typed_hash recover s d c with
+    | Some (s1, e1, m1), Some (s2, e2, m2) => s1 = s2 /\ m1 = m2 /\ Forall2 ev_same_bond e1 e2
+    | None, None => True
+    | _, _ => False
+    end.
+  Proof.
+    intros s d c. unfold native_prog.
+    destruct (guard chain_id typed_hash recover d c); [|exact I].
+    destruct (first_msgs nstate q_rewards s d c) as [m1|]; [|exact I].
+    pose proof (run_native_same m1 s) as H1.
+    destruct (run_native nstate native_step s m1) as [[s1 e1]|], (run_native nstate native_step' s m1) as [[s1' e1']|];
+      try contradiction; [|exact I].
+    destruct H1 as [<- He1].
+    destruct (second_msgs nstate q_balance q_delegated_bonded q_bonded s1 d c) as [m2|]; [|exact I].
+    pose proof (run_native_same m2 s1) as H2.
+    destruct (run_native nstate native_step s1 m2) as [[s2 e2]|], (run_native nstate native_step' s1 m2) as [[s2' e2']|];
+      try contradiction; [|exact I].
+    destruct H2 as [<- He2]. split; [reflexivity|]. split; [reflexivity|]. now apply Forall2_app.
+  Qed.
+
+  (* the precompile call does not notice: same success, same state, same logs, same returned flag, same messages *)
+  Theorem cpc_step_ignores_other_denoms : forall s caller c,
+    cpc_step nstate native_step q_rewards q_balance q_delegated_bonded q_bonded chain_id typed_hash recover s caller c =
+    cpc_step nstate native_step' q_rewards q_balance q_delegated_bonded q_bonded chain_id typed_hash recover s caller c.
+  Proof.
+    intros s caller c. rewrite !cpc_step_is_native_prog. pose proof (native_prog_same s caller c) as H.
+    destruct (native_prog nstate native_step _ _ _ _ _ _ _ s caller c) as [[[s1 e1] m1]|],
+             (native_prog nstate native_step' _ _ _ _ _ _ _ s caller c) as [[[s2 e2] m2]|]; try contradiction; [|reflexivity].
+    destruct H as [<- [<- He]]. unfold of_prog. now rewrite (emit_same_bond caller e1 e2 He).
+  Qed.
+End TwoNatives.
 
 (* ---------------------------------------------------------------- transfer(): the validator choice *)
 
